@@ -38,6 +38,7 @@ def check(run: Run) -> None:
     _COUNTS.clear()
     _check_function(run, ctx, fi, seen=set())
     _check_list_fields(run, m)
+    _check_ctx_fields(run, m)
     # a constant's value only changes the hash if the value reached the AST: the capture snapshot (shared with C04.R3/R6)
     from ..report import Relabel
     from .c04 import check_snapshot
@@ -52,6 +53,37 @@ def check(run: Run) -> None:
     run.rule("C20.R10", "the way a lambda is supplied does not change the AST: a python callable is captured by value with every binder respected (C04.R1, C04.R3 re-evaluated) and values become constants without conversion (C13.R2: True stays True, not 1) - so callable, text and AST forms of one lambda hash alike")
     run_stage(run, "c04", only={"C04.R1", "C04.R3"})
     check_snapshot(Relabel(run, "C20.R7"), TermCtx(m, max_depth=2, opaque={"as_literal", "_parse_source_for_lambda"}), m, m.find_class("_rewrite_captured_vars", in_module="func_adl.util_ast"))
+
+
+CTX_CLASSES = ("Name", "Attribute", "Subscript", "List", "Tuple", "Starred")
+BUILD_PATH = ("func_adl.util_ast", "func_adl.object_stream", "func_adl.event_dataset", "func_adl.type_based_replacement", "func_adl.ast.syntatic_sugar")
+
+
+def _check_ctx_fields(run: Run, m) -> None:
+    """ast.dump leaves out a field that was never set: Name(id='x') and Name(id='x', ctx=Load()) print - and hash -
+    differently, although they unparse alike. Nodes the library builds while a query is being *built* (capture, helper
+    inlining, sugar, operators) stand where the parser would have put complete nodes when the same lambda is given as
+    text: they must carry their ctx, or the hash depends on the way the lambda was supplied."""
+    run.rule("C20.R11", "every Name / Attribute / Subscript / List / Tuple / Starred the library constructs on the query-building path is given its ctx (ast.dump omits unset fields: the hash would depend on how the lambda was supplied)")
+    n = 0
+    for fi in m.funcs.values():
+        if fi.module.name not in BUILD_PATH:
+            continue
+        for c in calls_in(fi):
+            f = c.func
+            if not (isinstance(f, ast.Attribute) and isinstance(f.value, ast.Name) and f.value.id == "ast" and f.attr in CTX_CLASSES):
+                continue
+            n += 1
+            fields = list(getattr(ast, f.attr)._fields)
+            given = set(fields[: len(c.args)]) | {k.arg for k in c.keywords if k.arg}
+            if any(isinstance(a, ast.Starred) for a in c.args) or any(k.arg is None for k in c.keywords):
+                continue
+            stand_in = f.attr == "Name" and len(c.args) == 1 and isinstance(c.args[0], ast.Constant) and c.args[0].value == "basic"
+            if stand_in:
+                run.ok("C20.R11", fi, "root of the stand-in stream used while following nested lambdas (never part of a query)")
+                continue
+            run.check("ctx" in given, "C20.R11", fi, stmt_of(c), f"ast.{f.attr}(..) is given its ctx", f"{fi.name} builds ast.{f.attr}({', '.join(sorted(given))}) without ctx: ast.dump leaves the unset field out, so the node - and every query that contains it - hashes differently from the same query written as text (where the parser sets ctx=Load()), although both unparse alike", f"ast.{f.attr}(.., ctx=ast.Load())", key=f"ctx missing on ast.{f.attr} built by {fi.name}")
+    run.floor("C20.R11", n, 5, "constructions of ctx-carrying nodes on the building path")
 
 
 LIST_FIELDS = {"args", "keywords", "elts", "keys", "values", "body", "orelse", "generators", "ifs", "comparators", "ops", "posonlyargs", "kwonlyargs", "kw_defaults", "defaults", "targets", "names", "decorator_list", "handlers", "finalbody", "items"}
